@@ -910,6 +910,30 @@ class Terms:
         return self.operand(t["discr"])
 
 
+def expand_closures(facts, t, depth=2):
+    """replace ('closure', id, captures) by ('closure_ret', id, <return term with upvars substituted>) so that the
+    data a closure reads becomes visible in the enclosing term"""
+    if not isinstance(t, tuple) or not t or depth < 0:
+        return t
+    if t[0] == "closure" and t[1] in facts.bodies:
+        cb = facts.bodies[t[1]]
+        ct = Terms(facts, cb, inline_depth=1)
+        r = ct.local(0)
+        caps = t[2]
+
+        def sub(x):
+            if not isinstance(x, tuple) or not x:
+                return x
+            if x[0] == "field" and isinstance(x[1], tuple) and x[1] and x[1][0] == "param" and x[1][1] == 0:
+                try:
+                    return caps[int(x[2])]
+                except (ValueError, IndexError):
+                    return x
+            return tuple(sub(y) if isinstance(y, tuple) else y for y in x)
+        return ("closure_ret", t[1], expand_closures(facts, sub(r), depth - 1))
+    return tuple(expand_closures(facts, x, depth) if isinstance(x, tuple) else x for x in t)
+
+
 def _size(t):
     if not isinstance(t, tuple):
         return 1
